@@ -5,6 +5,9 @@ HERE = os.path.dirname(os.path.dirname(os.path.abspath(__file__)))
 ALL = ["C%02d" % i for i in range(1, 21)]
 HYD_NOTE = "Trusted: TLC; Dec.tla exact decimal arithmetic (self-tested by setup); recorded floats are logged at their shortest round-trip decimal; tolerances derived from the solver criterion max|residual| < 1e-6 with factor 2; non-converged runs are counted, not asserted."
 CLAIMED = {
+ "C11": dict(cat="model_checking", tech="TLC structural comparison of canonicalised model dictionaries across run/reset cycles (Same.tla), TLC comparison of result tables of reruns and copies (Agree.tla), action property DefinitionUnchanged on WntrSim.tla",
+   text="For random feature-rich models with controls that change statuses, valve settings and pump statuses, leaks, level limits and PDD, the canonical to_dict() is recorded before and after every WNTRSimulator run, every reset_initial_values() and an EpanetSimulator run; TLC checks structural equality with the initial dictionary, and that run k equals run 1 and a deepcopy's run equals the original's (1e-9). On the algorithmic model TLC checks that no action of run_sim writes the scenario definition.",
+   note="Trusted: TLC. The definition is what to_dict() contains; floats compared by repr.", ref="DESIGN.md section 5 C11"),
  "C10": dict(cat="model_checking", tech="TLA+ model of run_sim with a NewRun action (WntrSim.tla): TLC checks that paused runs refine the uninterrupted declarative timeline; paused/pickled real runs replayed against it; general networks compared by TLC (Agree.tla)",
    text="WntrSim.tla models run_sim returning at a pause duration and a new simulator continuing from the state persisted in the model; for control/rule schedules with 1-3 pauses TLC checks that the algorithm still refines the declarative timeline and emits it, and the real simulator run in parts (new simulator per part, optional pickle round trip) must reproduce it with strictly increasing times. On general networks the concatenated rows of the parts are compared with the single run by TLC: same times, restart at the next hydraulic step, equal heads/demands/flows/statuses up to the solver tolerance.",
    note="Trusted: TLC. Pause points on the hydraulic grid. Two converged solutions may differ by the solver tolerance: 2e-4 absolute + 1e-4 relative; status differences tolerated only on links carrying < 1e-4 m3/s.", ref="DESIGN.md section 5 C10"),
